@@ -98,3 +98,29 @@ package keeper
 //@       has(Metadata, old(Order[orderId].DataId)) && Metadata[old(Order[orderId].DataId)].Status == MetaComplete
 //@       && Metadata[old(Order[orderId].DataId)].Commit == CommitFromVersion(old(Metadata[Order[orderId].DataId].Commits)[len(old(Metadata[Order[orderId].DataId].Commits)) - 1])
 //@       && Metadata[old(Order[orderId].DataId)].OrderId == old(Metadata[Order[orderId].DataId].Orders)[len(old(Metadata[Order[orderId].DataId].Orders)) - 1]
+
+
+// TerminateOrder: settle one completed order of a model: market refund, release of the order's own completed shards,
+// refund to the owner, removal of the order record. Shard records and the model itself are not touched here.
+//@ func (Keeper) TerminateOrder(ctx, order) (err)
+//@   requires forall w string :: has(Worker, w) ==> Worker[w].Workername == w
+//@   requires forall c string :: has(Pledge, c) ==> Pledge[c].Creator == c
+//@   requires forall c string :: has(PledgeDebt, c) ==> PledgeDebt[c].Sp == c && PledgeDebt[c].Debt.Amount >= 0
+//@   requires forall i int :: 0 <= i && i <= MaxUint64 && has(Shard, i) ==> Shard[i].Id == i && Shard[i].Pledge.Amount >= 0
+//@   requires forall c string :: has(DidBalances, c) ==> DidBalances[c].Did == c
+//@   modifies Worker, Pledge, PledgeDebt, Bank, Order[order.Id], DidBalances
+//@   ensures [C09.terminateorder.repinv.w] forall w string :: has(Worker, w) ==> Worker[w].Workername == w
+//@   ensures [C09.terminateorder.repinv.p] forall c string :: has(Pledge, c) ==> Pledge[c].Creator == c
+//@   ensures [C09.terminateorder.repinv.d] forall c string :: has(PledgeDebt, c) ==> PledgeDebt[c].Sp == c && PledgeDebt[c].Debt.Amount >= 0
+//@   ensures [C09.terminateorder.repinv.b] forall c string :: has(DidBalances, c) ==> DidBalances[c].Did == c
+//@   ensures [C04.terminateorder.removed] err == nil ==> !has(Order, order.Id)
+//@   loop L1 invariant -1 <= rangeindex
+//@   loop L1 invariant forall c string :: has(Pledge, c) ==> Pledge[c].Creator == c
+//@   loop L1 invariant forall c string :: has(PledgeDebt, c) ==> PledgeDebt[c].Sp == c && PledgeDebt[c].Debt.Amount >= 0
+//@   loop L1 invariant Order[order0.Id] == old(Order[order0.Id]) && (has(Order, order0.Id) <==> old(has(Order, order0.Id)))
+
+// DeleteMeta removes a data model and its alias
+//@ func (Keeper) DeleteMeta(ctx, dataId) (err)
+//@   modifies Metadata[dataId], Model[sprintf("%s-%s-%s", Metadata[dataId].Owner, Metadata[dataId].Alias, Metadata[dataId].GroupId)]
+//@   ensures [C09.deletemeta] err == nil ==> old(has(Metadata, dataId)) && !has(Metadata, dataId) && !has(Model, sprintf("%s-%s-%s", old(Metadata[dataId].Owner), old(Metadata[dataId].Alias), old(Metadata[dataId].GroupId)))
+//@   ensures [C09.deletemeta.err] err != nil ==> !old(has(Metadata, dataId)) && !has(Metadata, dataId)
